@@ -32,6 +32,8 @@ type C13Case struct {
 	TornTail   int         `json:"torn_tail,omitempty"` // bytes of a fragment appended to the log before the experiment
 	BigBody    int         `json:"big_body,omitempty"`
 	Writer     Op          `json:"writer"`
+	Writer2    *Op         `json:"writer2,omitempty"` // mode B: a second command that runs while the reader is stopped
+	Legacy     bool        `json:"legacy_name,omitempty"`
 	Mode       string      `json:"mode"` // "writer-stepped" | "reader-parked"
 	ReaderPark *Inject     `json:"reader_park,omitempty"`
 	Violations []Violation `json:"violations,omitempty"`
@@ -43,6 +45,12 @@ func readerCmds(pre *Snapshot) [][]string {
 	ids := pre.SortedIDs()
 	if len(ids) > 0 {
 		cmds = append(cmds, []string{"--json", "show", ids[0]}, []string{"--json", "show", ids[len(ids)-1]})
+	}
+	for _, it := range pre.Tasks() {
+		if it.EpicID != "" && pre.Items[it.EpicID] != nil {
+			cmds = append(cmds, []string{"--json", "show", it.EpicID})
+			break
+		}
 	}
 	return cmds
 }
@@ -151,7 +159,7 @@ func writerStepped(w *World, pre *Snapshot, writer Op) (obs []readObs, viol []Vi
 
 // readerParked parks one reader after a chosen call, lets the writer run to completion,
 // then resumes the reader.
-func readerParked(w *World, pre *Snapshot, writer Op, park Inject) (obs []readObs, viol []Violation, skipped string) {
+func readerParked(w *World, pre *Snapshot, writer Op, writer2 *Op, park Inject) (obs []readObs, viol []Violation, skipped string) {
 	cmds := readerCmds(pre)
 	before := ReadLog(w.Root)
 	for _, c := range cmds {
@@ -164,6 +172,10 @@ func readerParked(w *World, pre *Snapshot, writer Op, park Inject) (obs []readOb
 		}
 		exited, _ := p.WaitParkedOrExit(hangLimit)
 		wr := Run(trial.Build(writer))
+		if writer2 != nil {
+			trial.writeFiles(writer2.Files)
+			Run(trial.Build(*writer2))
+		}
 		var res Res
 		if exited {
 			res = p.result()
@@ -205,7 +217,7 @@ func genWriterOp(t *rapid.T, w *World, pre *Snapshot) Op {
 	return genOp(t, w, pre, Profile{Name: "writer", Weights: map[string]int{"new_task": 30, "new_epic": 8, "set": 30, "claim": 8, "sequence": 8, "plan": 8, "compact": 10, "prune_yes": 6}, Results: 6})
 }
 
-func setupC13(w *World, setup []Op, torn, big int) (*Snapshot, bool) {
+func setupC13(w *World, setup []Op, torn, big int, legacy bool) (*Snapshot, bool) {
 	pre, err := TakeSnapshot(w.Root)
 	if err != nil {
 		return nil, false
@@ -228,6 +240,9 @@ func setupC13(w *World, setup []Op, torn, big int) (*Snapshot, bool) {
 				w.AddID(id, 900)
 			}
 		}
+	}
+	if legacy {
+		schedPre{Legacy: true}.apply(w.Root)
 	}
 	if b := ReadLog(w.Root); torn > 0 && (len(b) == 0 || b[len(b)-1] == '\n') {
 		frag := `{"type":"state","ts":"2026-01-01T00:00:00Z","data":{"id":"ZZZZZZ","state":"do` + bigBody(torn)
@@ -253,14 +268,14 @@ func TestC13(t *testing.T) {
 		}
 		for rep := 0; rep < 3; rep++ {
 			w := NewWorld("c13-replay")
-			pre, ok := setupC13(w, cc.Setup, cc.TornTail, cc.BigBody)
+			pre, ok := setupC13(w, cc.Setup, cc.TornTail, cc.BigBody, cc.Legacy)
 			if !ok {
 				w.Close()
 				t.Fatalf("setup failed")
 			}
 			var viol []Violation
 			if cc.Mode == "reader-parked" {
-				_, viol, _ = readerParked(w, pre, cc.Writer, *cc.ReaderPark)
+				_, viol, _ = readerParked(w, pre, cc.Writer, cc.Writer2, *cc.ReaderPark)
 			} else {
 				_, viol, _, _ = writerStepped(w, pre, cc.Writer)
 			}
@@ -303,15 +318,16 @@ func TestC13(t *testing.T) {
 		if pct(rt, 25, "torn") {
 			torn = between(rt, 1, 60, "torn.size")
 			if big > 0 && pct(rt, 50, "torn.big") {
-				torn = between(rt, 2000, 70000, "torn.bigsize")
+				torn = oneOf(rt, []int{2000, 30000, 65000, 66000, 70000, 140000}, "torn.bigsize")
 			}
 		}
-		if big > 0 || torn > 0 {
+		legacy := pct(rt, 15, "legacy")
+		if big > 0 || torn > 0 || legacy {
 			w2 := NewWorld("C13b")
 			w.Close()
 			*w = *w2
 			var ok bool
-			pre, ok = setupC13(w, setup, torn, big)
+			pre, ok = setupC13(w, setup, torn, big, legacy)
 			if !ok {
 				stats.Abort("setup replay failed")
 				return
@@ -328,15 +344,47 @@ func TestC13(t *testing.T) {
 		if torn > 0 && pct(rt, 50, "torn.readerparked") {
 			mode = "reader-parked" // a reader that has consumed the fragment while a writer repairs it
 		}
-		cc := C13Case{Property: "C13", Engine: "SCHED", Test: "TestC13", Setup: setup, TornTail: torn, BigBody: big, Writer: writer, Mode: mode}
+		cc := C13Case{Property: "C13", Engine: "SCHED", Test: "TestC13", Setup: setup, TornTail: torn, BigBody: big, Writer: writer, Mode: mode, Legacy: legacy}
+		if legacy {
+			stats.Label("pre.legacy_file_name")
+			if pct(rt, 50, "legacy.compact") {
+				writer = Op{Kind: "compact", N: 500}
+				cc.Writer = writer
+			}
+		}
 		var viol []Violation
 		var obs []readObs
 		sig := fmt.Sprintf("%s/%s/torn=%v/big=%v", writer.Kind, fieldSig(writer), torn > 0, big > 0)
 		if mode == "reader-parked" {
-			park := oneOf(rt, []Inject{{"openat", 1, "stop", ""}, {"read", 1, "stop", ""}, {"read", 2, "stop", ""}, {"read", 2, "stop", ""}, {"read", 3, "stop", ""}, {"pread64", 1, "stop", ""}}, "reader.park")
+			park := oneOf(rt, []Inject{{"openat", 1, "stop", ""}, {"read", 1, "stop", ""}, {"read", 2, "stop", ""}, {"read", 2, "stop", ""}, {"read", 3, "stop", ""}, {"newfstatat", 1, "stop", ""}, {"newfstatat", 2, "stop", ""}, {"newfstatat", 3, "stop", ""}, {"openat", 2, "stop", ""}}, "reader.park")
 			cc.ReaderPark = &park
+			// half of the time two commands run while the reader is stopped - if possible one
+			// on an epic and one on a child of it (a reader that loads the log twice mixes them)
+			if pct(rt, 50, "two.writers") {
+				var w2 Op
+				done := false
+				for _, it := range pre.Tasks() {
+					if ep := pre.Items[it.EpicID]; ep != nil && pct(rt, 70, "pair.epic") {
+						g := refGen{rt, w, pre}
+						re, rc := g.ref(ep.ID), g.ref(it.ID)
+						writer = Op{N: 500, Kind: "set", Mode: "json", Target: &re, Title: sp(w.UniqueTitle("epic retitled"))}
+						st := "done"
+						if !transitionTable[it.State]["done"] {
+							st = "todo"
+						}
+						w2 = Op{N: 501, Kind: "set", Mode: "json", Target: &rc, State: &st, Agent: "a1"}
+						done = true
+						break
+					}
+				}
+				if !done {
+					w2 = genWriterOp(rt, w, pre)
+					w2.N = 501
+				}
+				cc.Writer, cc.Writer2 = writer, &w2
+			}
 			var skipped string
-			obs, viol, skipped = readerParked(w, pre, writer, park)
+			obs, viol, skipped = readerParked(w, pre, writer, cc.Writer2, park)
 			if skipped != "" {
 				stats.Label("skipped")
 			}
